@@ -179,7 +179,7 @@ def runCase (c : Case) : List String := Id.run do
       out := out.push (s!"{id} row {i} {showBnd b.1} {showBnd b.2} y0 {showRat (y0.getD i 0)} lin" ++ showEntries (feedLinearConExpr m i))
     for s in feedSuffixes m do
       if !s.entries.isEmpty then
-        out := out.push (s!"{id} suf {s.name} {s.kind % 8} {sufSize m s.kind}" ++ showDenseNZ (dense (sufSize m s.kind) s.entries))
+        out := out.push (s!"{id} suf {s.name} {s.kind % 8}" ++ showDenseNZ (dense (sufSize m s.kind) s.entries))
   match feedColNames m with
   | none => out := out.push s!"{id} colfile 0"
   | some l => out := out.push (s!"{id} colfile 1" ++ String.join (l.map (fun s => " " ++ showName s)))
